@@ -168,8 +168,12 @@ func (p *Prog) ipathsD(f *ssa.Function, depth int, stack map[*ssa.Function]bool)
 						sub, okc := p.ipathsD(callee, depth+1, stack)
 						if okc && len(sub) > 0 && len(sub)*len(cur) <= ipathLimit {
 							psub := map[string]string{}
+							fsub := map[string]string{} // function-valued parameters bound to a named function
 							for i, pa := range callee.Params {
 								psub[pa.Name()] = kf(x.Call.Args[i])
+								if fn, ok := x.Call.Args[i].(*ssa.Function); ok {
+									fsub[pa.Name()] = fullName(fn)
+								}
 							}
 							var next []ipath
 							ck := kf(x)
@@ -193,6 +197,11 @@ func (p *Prog) ipathsD(f *ssa.Function, depth int, stack map[*ssa.Function]bool)
 									}
 									for _, e := range sp.Events {
 										ne := e
+										if strings.HasPrefix(e.Callee, "dynamic:") {
+											if fn, ok := fsub[strings.TrimPrefix(e.Callee, "dynamic:")]; ok {
+												ne.Callee = fn // a call through a function-valued parameter, resolved at this call site
+											}
+										}
 										ne.Key = keySubst(e.Key, psub)
 										ne.Args = nil
 										for _, a := range e.Args {
